@@ -32,6 +32,9 @@ type FuncResult struct {
 }
 
 // verifyFunctions runs the executor and the solvers for the given function keys.
+// PrepareSecs: time spent rendering queries (sequential part of a run).
+var PrepareSecs float64
+
 func verifyFunctions(P *Program, C *Contracts, keys []string, opt solveOpts, filter func(o *Obligation) bool) []*FuncResult {
 	var results []*FuncResult
 	type job struct {
@@ -39,6 +42,8 @@ func verifyFunctions(P *Program, C *Contracts, keys []string, opt solveOpts, fil
 		o  *Obligation
 	}
 	var jobs []job
+	var wg sync.WaitGroup
+	sem := make(chan struct{}, 6)
 	// a contract on a generic function covers every instance the program contains
 	var expanded []string
 	for _, k := range keys {
@@ -80,8 +85,10 @@ func verifyFunctions(P *Program, C *Contracts, keys []string, opt solveOpts, fil
 			continue
 		}
 		t0 := time.Now()
+		TSMu.Lock()
 		ex := NewExec(P, C, fn)
 		obls, err := ex.Verify()
+		TSMu.Unlock()
 		fr.Ctx = ex.ctx
 		fr.Exec = ex
 		fr.Err = err
@@ -96,23 +103,28 @@ func verifyFunctions(P *Program, C *Contracts, keys []string, opt solveOpts, fil
 				if ex.fc != nil && ex.fc.BV {
 					mode = ModeBV
 				}
+				// queries are rendered here, one after the other (the term store is not
+				// thread-safe); the solvers run in the background while the next is rendered
+				tp := time.Now()
+				TSMu.Lock()
 				prepareObligation(ex.ctx, o, mode, opt)
+				TSMu.Unlock()
+				PrepareSecs += time.Since(tp).Seconds()
 				jobs = append(jobs, job{fr, o})
+				wg.Add(1)
+				sem <- struct{}{}
+				go func(j job) {
+					defer wg.Done()
+					defer func() { <-sem }()
+					runObligation(j.o, opt)
+				}(job{fr, o})
 			}
 		}
 	}
-	var wg sync.WaitGroup
-	sem := make(chan struct{}, 12)
-	for _, j := range jobs {
-		wg.Add(1)
-		sem <- struct{}{}
-		go func(j job) {
-			defer wg.Done()
-			defer func() { <-sem }()
-			runObligation(j.o, opt)
-		}(j)
-	}
 	wg.Wait()
+	if os.Getenv("SONICVC_SLOW") != "" {
+		fmt.Printf("rendering queries: %.1fs\n", PrepareSecs)
+	}
 	return results
 }
 
@@ -198,11 +210,16 @@ func cmdVerify(args []string) int {
 			}
 		}
 		fmt.Printf("%-60s %d/%d  (%.2fs exec)\n", shortKey(fr.Key), ok, len(fr.Obls), fr.Secs)
-		if !vacuityOK(fr, solveOpts{secs: secs, workdir: wd}) {
+		if !vacuityOK(fr, solveOpts{secs: secs, workdir: wd, keep: keep}) {
 			fmt.Printf("   VACUOUS: hypotheses are unsatisfiable at every return of %s (contradictory contract or engine axioms)\n", shortKey(fr.Key))
 			bad++
 		}
+		slow := 0.0
+		fmt.Sscanf(os.Getenv("SONICVC_SLOW"), "%g", &slow)
 		for _, o := range fr.Obls {
+			if slow > 0 && o.Result == "unsat" && o.Wall >= slow {
+				fmt.Printf("   SLOW     %-9s %5.2fs (all stages %5.2fs) %s\n", o.Backend, o.Secs, o.Wall, o.Name)
+			}
 			if o.Result != "unsat" || verbose {
 				fmt.Printf("   %-8s %-9s %5.2fs %s   [%s] %s\n", o.Result, o.Backend, o.Secs, o.Name, o.Pos, o.Clause)
 				if o.Result == "sat" {
@@ -584,7 +601,12 @@ func vacuityOK(fr *FuncResult, opt solveOpts) bool {
 		if r.st.pc.IsFalse() {
 			continue
 		}
-		as := append([]*Term{}, fr.Ctx.hyps[:r.nhyps]...)
+		var as []*Term
+		if r.hyps != nil {
+			as = append(as, r.hyps...)
+		} else {
+			as = append(as, fr.Ctx.hyps[:r.nhyps]...)
+		}
 		as = append(as, r.st.pc)
 		text, err := Query(ModeInt, as, nil)
 		if err != nil {
@@ -597,7 +619,9 @@ func vacuityOK(fr *FuncResult, opt solveOpts) bool {
 		f := fmt.Sprintf("%s/vac%05d.smt2", opt.workdir, fileCounter)
 		os.WriteFile(f, []byte(text), 0o644)
 		r, _ := raceSolvers(f, 10, false)
-		os.Remove(f)
+		if !opt.keep {
+			os.Remove(f)
+		}
 		if r.answer != "unsat" {
 			// sat: reachable; unknown: not shown contradictory (only a definite unsat is vacuity)
 			return true
